@@ -53,7 +53,7 @@ func driveC02T(a *args, s *vt.Sink) error {
 	} else {
 		kinds := []string{"live_play_tcp", "live_play_udp", "live_record_tcp", "live_record_udp",
 			"silent_play_udp", "silent_record_udp", "control_only_play_udp",
-			"slow_record_udp", "repause_record_udp"}
+			"slow_record_udp", "repause_record_udp", "silent_play_tcp", "silent_play_tunnel"}
 		grid := [][3]int{{3000, 2000, 200}}
 		if a.tier == "thorough" {
 			grid = [][3]int{{2000, 2000, 200}, {3000, 2000, 500}, {2000, 3000, 1000}, {6000, 2000, 200}, {7000, 2500, 300}}
@@ -301,6 +301,51 @@ func c02tRun(sc *c02tScn, s *vt.Sink) error {
 			tr.Emit("silent", "kind", sc.Kind, "timeout", timeout, "period", sc.PerMs, "closed", int(at.Sub(t0).Milliseconds()))
 		case <-time.After(limit):
 			tr.Emit("silent", "kind", sc.Kind, "timeout", timeout, "period", sc.PerMs, "closed", 1000000)
+		}
+	case "silent_play_tcp", "silent_play_tunnel":
+		// a peer that plays over its (plain or HTTP-tunnelled) control connection and then sends
+		// nothing more while keeping it open: the idle timeout of that connection ends the session
+		var peer *bed.Peer
+		if sc.Kind == "silent_play_tunnel" {
+			p, _, _, err := bd.DialTunnelHTTP()
+			if err != nil {
+				return fmt.Errorf("c02t %s: %w", sc.Kind, err)
+			}
+			peer = p
+		} else {
+			p, err := bd.Dial()
+			if err != nil {
+				return err
+			}
+			peer = p
+		}
+		defer peer.Close()
+		peer.Timeout = 3 * time.Second
+		url := bd.URL("stream")
+		th := headers.Transport{Protocol: headers.TransportProtocolTCP, InterleavedIDs: &[2]int{0, 1}}
+		d := headers.TransportDeliveryUnicast
+		th.Delivery = &d
+		r := peer.Do(&base.Request{Method: base.Setup, URL: bed.MustURL(url + "/trackID=0"),
+			Header: base.Header{"Transport": th.Marshal()}})
+		if r.Res == nil || r.Res.StatusCode != base.StatusOK {
+			return fmt.Errorf("c02t %s: SETUP failed", sc.Kind)
+		}
+		var sh headers.Session
+		if err := sh.Unmarshal(r.Res.Header["Session"]); err != nil {
+			return fmt.Errorf("c02t %s: no session id", sc.Kind)
+		}
+		r = peer.Do(&base.Request{Method: base.Play, URL: bed.MustURL(url),
+			Header: base.Header{"Session": base.HeaderValue{sh.Session}}})
+		if r.Res == nil || r.Res.StatusCode != base.StatusOK {
+			return fmt.Errorf("c02t %s: PLAY failed", sc.Kind)
+		}
+		t0 := time.Now()
+		limit := time.Duration(sc.IdleMs+sc.PerMs+1000+3000) * time.Millisecond
+		select {
+		case at := <-closedAt:
+			tr.Emit("silent", "kind", sc.Kind, "timeout", sc.IdleMs, "period", sc.PerMs, "closed", int(at.Sub(t0).Milliseconds()))
+		case <-time.After(limit):
+			tr.Emit("silent", "kind", sc.Kind, "timeout", sc.IdleMs, "period", sc.PerMs, "closed", 1000000)
 		}
 	default:
 		return fmt.Errorf("c02t: unknown kind %q", sc.Kind)
